@@ -5,8 +5,9 @@ directly on the observation.
 -/
 import Driver.MergeDecode
 import NriModel.Ledger
+import NriModel.Overlay
 
-open Lean Drv Nri Nri.Api Nri.Result
+open Lean Drv Nri Nri.Api Nri.Result Nri.Overlay
 
 namespace Drv.Merge
 
@@ -92,32 +93,6 @@ def errKind : Except Err State → String
   | .ok _ => "none"
   | .error (.conflict ..) => "conflict"
   | .error (.selfUpdate ..) => "selfupdate"
-
-/-- NRI-level reading of one plugin's adjustment on the container it was shown: the spec of
-    "the container … with the adjustments of all earlier plugins applied" (C04), written
-    without reference to the collector's state. -/
-def overlayContainer (c : Container) (a : Adjustment) : Container :=
-  let rmA := Ledger.markedKeys (a.annotations.map (·.1))
-  let setA := a.annotations.filter fun (k, _) => !(isMarked k).2
-  let ann := setA.foldl (fun m (k, v) => AList.insert m k v) (rmA.foldl (fun m k => AList.erase m k) c.annotations)
-  let touched := fun (keys : List Str) => keys.map fun k => (isMarked k).1
-  let tm := touched (a.mounts.map (·.destination))
-  let te := touched (a.env.map (·.key))
-  let td := touched (a.devices.map (·.path))
-  let res := match a.resources with
-    | some r => if a.hasLinux then overlayRes c.resources r r.pids else c.resources
-    | none => c.resources
-  { c with
-    annotations := ann,
-    mounts := (c.mounts.filter fun m => !tm.contains m.destination) ++ a.mounts.filter fun m => !(isMarked m.destination).2,
-    env := (c.env.filter fun s => !te.contains (envKey s)) ++ (a.env.filter fun e => !(isMarked e.key).2).map KeyValue.toOCI,
-    args := (match a.args with | [] => c.args | x :: rest => if x = [] then rest else x :: rest),
-    hooks := (match a.hooks with | some h => c.hooks.append h | none => c.hooks),
-    devices := if a.hasLinux then (c.devices.filter fun d => !td.contains d.path) ++ a.devices.filter fun d => !(isMarked d.path).2 else c.devices,
-    resources := res,
-    cgroupsPath := if a.hasLinux && a.cgroupsPath ≠ [] then a.cgroupsPath else c.cgroupsPath,
-    oomScoreAdj := if a.hasLinux then a.oomScoreAdj.orElse (fun _ => c.oomScoreAdj) else c.oomScoreAdj,
-    rlimits := c.rlimits ++ a.rlimits }
 
 structure Judged where
   agree : Bool
